@@ -55,7 +55,7 @@ func c07Scenarios(tier string) []*Scenario {
 					v.mod(&wl, shape)
 					wl.Handler.KeepGoing = false
 					opt := Options{Level: "io", Bound: 1, DevOK: onlyFaults}
-					if !cfg.Reverse && !cfg.ServerNoFC {
+					if !cfg.Reverse && !cfg.ServerNoFC && tier != "lite" {
 						opt = Options{Level: "io", Bound: 2, DevOK: oneFaultAnyOrder}
 					}
 					if thorough {
